@@ -189,7 +189,7 @@ pub fn start_txs(kind: ShapeKind, k: usize) -> Vec<TxSpec> {
 
 
 /// A history whose free list (free + pending ids) sweeps slowly upwards through the capacity of
-/// one free-list page (123 ids at page size 1024) and of two, and back down: 170 page-sized
+/// one free-list page (123 ids at page size 1024) and of two, and back down: 150-325 page-sized
 /// values, then commits that delete 1-3 of them each, then commits that put them back. Every
 /// count around a page boundary of the free list is visited by some commit.
 pub fn freelist_boundary_history(seed: u64) -> HistoryCase {
@@ -198,7 +198,8 @@ pub fn freelist_boundary_history(seed: u64) -> HistoryCase {
         kind: TxKind::Commit,
         ops: vec![Op::GetOrCreate { b: 0, k: KeySel::Lit(b"v".to_vec()), kk: 2 }],
     }];
-    let total: u16 = 150 + (seed % 60) as u16;
+    // enough values for the free list to reach the end of a two-page run (251 ids) in half of the histories
+    let total: u16 = if seed % 4 >= 2 { 285 + (seed % 40) as u16 } else { 150 + (seed % 60) as u16 };
     let mut fill = Vec::new();
     let mut at = 0u16;
     while at < total {
@@ -215,7 +216,9 @@ pub fn freelist_boundary_history(seed: u64) -> HistoryCase {
         txs.push(TxSpec { kind: TxKind::Commit, ops: vec![Op::DeleteRun { b: 0, start: 0, n: k }] });
         left = left.saturating_sub(k as u16);
         deleted += k as u16;
-        if rng.chance(1, 40) {
+        // odd seeds: close and reopen after every commit, so that every free-list length of the
+        // sweep is also loaded from the file once and followed by a commit
+        if seed % 2 == 1 || rng.chance(1, 40) {
             txs.push(TxSpec { kind: TxKind::Reopen, ops: vec![] });
         }
     }
@@ -225,9 +228,49 @@ pub fn freelist_boundary_history(seed: u64) -> HistoryCase {
         let k = 1 + rng.below(3) as u8;
         txs.push(TxSpec { kind: TxKind::Commit, ops: vec![Op::PutRun { b: 0, base: vec![b'p'], start: back, step: 1, n: k, klen: 0, vlen: 900 }] });
         back += k as u16;
-        if rng.chance(1, 40) {
+        if seed % 2 == 1 || rng.chance(1, 40) {
             txs.push(TxSpec { kind: TxKind::Reopen, ops: vec![] });
         }
     }
     HistoryCase { cfg: Cfg { pagesize: 1024, num_pages: 32, strict: seed % 3 == 0, populate: false }, fresh_handles: false, txs, dance: 0 }
+}
+
+
+/// A parent bucket with `n` sibling sub-buckets (hundreds to a few thousand) plus a bucket two
+/// levels down; one transaction writes to the deep bucket and lists / opens all the siblings, in
+/// either order, with bucket handles re-acquired for every operation; then more of the same after
+/// commit. Anything keyed on "how many buckets a transaction has opened" is reached only here.
+pub fn wide_parent_history(n: u16, variant: u8) -> HistoryCase {
+    let lit = |s: &str| KeySel::Lit(s.as_bytes().to_vec());
+    let mut t0 = vec![
+        Op::CreateBucket { b: 0, k: lit("p"), kk: 2 },
+        Op::CreateBucket { b: ROOT_SEL, k: lit("x"), kk: 2 },
+        // paths: /p, /p/x -> /p/x is the last non-root path
+        Op::CreateBucket { b: 0xFFFF, k: lit("y"), kk: 2 },
+        Op::Put { b: 0xFFFF, k: lit("k0"), v: ValSel::Lit(b"v0".to_vec()), kk: 2, vk: 2 },
+    ];
+    for i in 0..n {
+        t0.push(Op::CreateBucket { b: ROOT_SEL, k: KeySel::Lit(format!("c{:05}", i).into_bytes()), kk: 2 });
+    }
+    // /p/x/y sorts behind every /p/cNNNNN and behind /p/x: selector 0xFFFF addresses it in key operations
+    let write = |tag: &str| Op::Put { b: 0xFFFF, k: lit(tag), v: ValSel::Fill { len: 40, seed: tag.len() as u8 }, kk: 2, vk: 2 };
+    let list = Op::Buckets { b: ROOT_SEL };
+    let read = |tag: &str| Op::Get { b: 0xFFFF, k: lit(tag) };
+    let t1 = match variant % 3 {
+        0 => vec![write("k1"), list.clone(), read("k1"), Op::NextInt { b: 0xFFFF }],
+        1 => vec![list.clone(), write("k1"), read("k1"), list.clone()],
+        _ => vec![write("k1"), Op::Delete { b: 0xFFFF, k: lit("k0") }, list.clone(), read("k0"), read("k1")],
+    };
+    let t2 = vec![list.clone(), write("k2"), list, read("k2")];
+    HistoryCase {
+        cfg: Cfg { pagesize: if variant % 2 == 0 { 1024 } else { 4096 }, num_pages: 32, strict: false, populate: false },
+        fresh_handles: true,
+        txs: vec![
+            TxSpec { kind: TxKind::Commit, ops: t0 },
+            TxSpec { kind: TxKind::Commit, ops: t1 },
+            TxSpec { kind: TxKind::Reopen, ops: vec![] },
+            TxSpec { kind: TxKind::Commit, ops: t2 },
+        ],
+        dance: 0,
+    }
 }
